@@ -13,7 +13,18 @@ fn draws<T: L>(n: usize, k: usize) -> Vec<Tab> {
     (0..k).map(|_| { let l = T::random_n(n); Tab::new(l.nv(), l.blocks_v()) }).collect()
 }
 
+/// every multi-word draw of the whole run, by size: draws must differ across passes, types and
+/// threads too, not only inside one pass (seed C19-l: a per-thread stream that wraps after 65536
+/// words, so the LutN pass of a thread replays its Lut pass)
+static ALL_DRAWS: std::sync::Mutex<Vec<(usize, Vec<u64>)>> = std::sync::Mutex::new(Vec::new());
+
 fn analyse(label: &str, n: usize, ds: &[Tab], fails: &mut Vec<String>) -> (usize, usize) {
+    if n >= 7 {
+        let mut g = ALL_DRAWS.lock().unwrap();
+        for d in ds {
+            g.push((n, d.w.clone()));
+        }
+    }
     let nb = 1usize << n;
     let mut seen0 = vec![false; nb];
     let mut seen1 = vec![false; nb];
@@ -184,6 +195,16 @@ pub fn run<W: Write>(_seed: u64, thorough: bool, w: &mut W) {
             distinct_total += b;
             fails.extend(fl);
         }
+    }
+    {
+        let mut g = ALL_DRAWS.lock().unwrap();
+        let total_g = g.len();
+        g.sort();
+        g.dedup();
+        if g.len() != total_g {
+            fails.push(format!("multi-word draws of the whole run (all passes, both types, all threads): {} distinct of {} - some table was drawn twice", g.len(), total_g));
+        }
+        g.clear();
     }
     for f in &fails {
         writeln!(w, "FAIL random :: {}", f).unwrap();
